@@ -215,10 +215,12 @@ _IDLOG = []
 
 
 def _id_fn(x, *others, block_id=None):
-    _IDLOG.append({"phase": rec.PHASE["now"], "block_id": list(block_id), "shape": list(np.shape(x))})
     out = np.asarray(x)
     for o in others:
         out = out + o
+    if block_id is None:  # dtype-inference probe
+        return out
+    _IDLOG.append({"phase": rec.PHASE["now"], "block_id": list(block_id), "shape": list(np.shape(x))})
     return out + sum((i + 1) * l for i, l in enumerate(block_id))
 
 
